@@ -94,8 +94,8 @@ func init() {
 			pc.RootOpts = [2]int{1, 4}
 			pc.Help = idx%5 == 0
 			p := GenProg(r, pc)
-			if pc.ReqOrder {
-				p.ReqOrder = true
+			if pc.ReqOrder && (idx/4)%2 == 0 {
+				p.ReqOrder = true // otherwise: the generator's choice (root and/or single commands)
 			}
 			sc := DefaultScen()
 			sc.WCmd = 5
